@@ -198,8 +198,36 @@ def body_encoding(ctx, mesh, supply, coords_as_coords, edge_order, two_name='Two
     ctx.check(kinds == {'face', 'node', 'edge'}, 'declared edge dimension gives an edge grid')
 
 
+def body_big_mesh(ctx):
+    """A mesh with more than 46340 nodes (node numbers whose product no longer fits in 32 bits): the derived edge table
+    is the set of node pairs of the faces, the derived tables agree with the face-node table."""
+    from emsarray.conventions.ugrid import Mesh2DTopology
+    ncol = 25001 + int(ctx.int('extra_columns', 0, 1))
+    nodes = [(i * 0.001, 0.0) for i in range(ncol)] + [(i * 0.001, 0.001) for i in range(ncol)]
+    faces = [[i, i + 1, i + 1 + ncol, i + ncol] for i in range(ncol - 1)]
+    # (the last quad is split into two triangles so that the tables have fill entries)
+    a, b, c, d = faces.pop()
+    faces += [[a, b, c], [a, c, d]]
+    ds = builders.ugrid((nodes, faces), fill='attr', start_index=1, fill_value=0, with_edges=True)
+    topo = Mesh2DTopology(ds)
+    want = set()
+    for f in faces:
+        for p in zip(f, f[1:] + f[:1]):
+            want.add(frozenset(p))
+    en = numpy.asarray(topo.edge_node_array)
+    got = {frozenset((int(x), int(y))) for x, y in en.tolist()}
+    ctx.check(len(en) == len(want) and got == want, 'derived edge-node table')
+    ctx.check(bool(((en >= 0) & (en < len(nodes))).all()), 'every node number in the derived edge table is a node of the mesh')
+    fe = topo.face_edge_array
+    k = len(faces) - 3
+    ok = all({frozenset(int(v) for v in en[int(e)]) for e in numpy.ma.compressed(fe[fi])} == {frozenset(p) for p in zip(faces[fi], faces[fi][1:] + faces[fi][:1])}
+             for fi in (0, 1, k, k + 1, k + 2, len(faces) // 2))
+    ctx.check(ok, 'face-edge table agrees with the face-node table under the edge numbering in use')
+
+
 def cases(tier):
     q = tier == 'quick'
+    yield Case('topology:big-strip:50000-nodes', body_big_mesh, dict(), max_paths=4)
     size_sets = [(3, 3), (3, 4), (4, 3)] if q else [(3, 3), (3, 4), (4, 3), (4, 4), (3, 5), (3, 3, 3), (3, 3, 4)]
     for sizes in size_sets:
         for with_edges in (False, True, 'declared'):
